@@ -30,6 +30,21 @@ Theorem C15_fill_tracks_error : forall st,
 Proof. exact fill_tracks_error. Qed.
 Print Assumptions C15_fill_tracks_error.
 
+(* chunk-level form: a fill that meets an error chunk stores the error and tracks it *)
+Theorem C15_fill_err_chunk : forall st e r,
+  script st = Err e :: r -> is_eof e = false ->
+  berr (fill st) = Some (GE e) /\ tracked_err (fill st) <> None /\ script (fill st) = r.
+Proof. exact fill_err_chunk. Qed.
+Print Assumptions C15_fill_err_chunk.
+
+Theorem C15_fill_dataerr_chunk : forall st bs e r,
+  script st = DataErr bs e :: r -> (length bs <= bufio_size - length (win st))%nat ->
+  is_eof e = false ->
+  berr (fill st) = Some (GE e) /\ tracked_err (fill st) <> None /\ script (fill st) = r /\
+  win (fill st) = win st ++ bs.
+Proof. exact fill_dataerr_chunk. Qed.
+Print Assumptions C15_fill_dataerr_chunk.
+
 (* the main statement *)
 Theorem C15_tracked_is_first_read_error : forall s0 ops,
   let st := snd (run_ops bufio_stream ops (bufio_init s0)) in
